@@ -1220,7 +1220,10 @@ def spelling_directed_package(namespace="Sp"):
                      "fields": [("vo", ("vec", ("opt", P("int32")), None)), ("fo", ("vec", ("opt", P("string")), 2)), ("mo", ("map", P("string"), ("opt", P("float64")))),
                                 ("vu", ("vec", ("union", True, [(None, P("int32")), (None, P("string"))]), None)),
                                 ("vvo", ("vec", ("vec", ("opt", ("named", "Sample", [])), None), None)), ("ov", ("opt", ("vec", P("int32"), None))),
-                                ("plain", ("opt", P("int32")))]})
+                                ("plain", ("opt", P("int32"))),
+                                # optional containers of nullable elements: in expanded YAML the item cases sit on the container node itself
+                                ("ovo", ("opt", ("vec", ("opt", P("int32")), None))), ("omo", ("opt", ("map", P("string"), ("opt", P("float32"))))),
+                                ("uvo", ("union", False, [("s", P("string")), ("v", ("vec", ("opt", P("int32")), None))]))]})
     pkg.defs.append({"kind": "protocol", "name": "PSp", "steps": [
         ("head", ("named", "Holder", []), False),
         ("nullables", ("named", "Nullables", []), True),
